@@ -53,6 +53,8 @@ def sample_units(pid, tier, decide):
 def matches_known(pid, unit, rec, findings):
     for f in findings:
         sig = f.get("signature") or {}
+        if not (sig.get("inputs") or sig.get("params")):
+            continue  # findings with a computed signature are excluded inside the harness, never here
         if sig.get("fn") and sig["fn"] != unit["fn"]:
             continue
         if all(rec["inputs"].get(k) == v for k, v in (sig.get("inputs") or {}).items()) and \
